@@ -554,7 +554,7 @@ pub fn build(tier: &str) -> SimCheck {
         scenarios,
         oracle: Box::new(oracle),
         bound: if thorough { 3 } else { 2 },
-        limits: Limits { max_wall_s: if thorough { 1500.0 } else { 50.0 }, ..Default::default() },
+        limits: Limits { max_wall_s: if thorough { 1500.0 } else { 150.0 }, ..Default::default() },
         rule: "scenario = pool mode x pool_size {1,2} x (pool_size+1 or +2) client programs (normal, aborts by hard drop/FIN mid-transaction, mid-COPY, mid-batch, server-side errors, server closing mid-reply, server-failed COPY, server dropping its idle pooled connections, extended-protocol batches answered from the statement cache by clients that then stay idle) plus a client queued for the only server across PAUSE / RESUME, plus hold-past-connect_timeout with/without checkout_failure_limit; all schedules with <= bound deviations; then pool_size simultaneous probe transactions and a pooler-state probe; distinct = distinct end-to-end histories".into(),
         assumptions: vec![
             "connections are counted on the reference backend's side (accepted minus closed) at quiescent points".into(),
